@@ -98,7 +98,8 @@ def run(ctx):
             "listFirst": [("If-None-Match", '%s, "0000"' % tag)], "listLast": [("If-None-Match", '"0000", %s' % tag)],
             "weakListLast": [("If-None-Match", '"0000", W/%s' % tag)], "weakFirstThenTag": [("If-None-Match", 'W/"0000",%s' % tag)],
             "star": [("If-None-Match", "*")], "lm": [("If-Modified-Since", lm)],
-            "both": [("If-None-Match", tag), ("If-Modified-Since", lm)], "staleEtag": [("If-None-Match", '"0000"')],
+            "both": [("If-None-Match", tag), ("If-Modified-Since", lm)],
+            "bothRev": [("If-Modified-Since", lm), ("If-None-Match", tag)], "staleEtag": [("If-None-Match", '"0000"')],
         }[form]
 
     try:
